@@ -1009,9 +1009,14 @@ def parent_rewiring(rep: Report, ctx: Ctx, rule: str) -> None:
     handler("update_graph_for_loop_start_events", "start_events",
             "get_innodes_not_in_set", "event_sets", "update_event_sets",
             True, True)
+    # (the end handler's own removal of the boundary edges is NOT an
+    # obligation: the next statement of the orchestration removes every
+    # out-edge of the loop's events with its mirror sets anyway, and for the
+    # unreachable break events every stale set is shadowed by its rewritten
+    # twin - triaged, DESIGN section 15)
     handler("update_graph_for_loop_end_events", "end_events",
             "get_outnodes_not_in_set", "in_event_sets",
-            "update_in_event_sets", False, True)
+            "update_in_event_sets", False, False)
     handler("update_graph_for_break_events_with_path_to_root_event",
             "break_events", "get_outnodes_not_in_set", "in_event_sets",
             "update_in_event_sets", False, False)
@@ -1158,7 +1163,7 @@ def rewiring_order(rep: Report, ctx: Ctx, rule: str) -> None:
 
 def r713(rep: Report, ctx: Ctx) -> None:
     rep.rule("R7.13", "parent rewiring keeps edges and successor / "
-             "predecessor sets of the loop boundary in step", 20)
+             "predecessor sets of the loop boundary in step", 18)
     parent_rewiring(rep, ctx, "R7.13")
     rewiring_order(rep, ctx, "R7.13")
 
@@ -1180,9 +1185,9 @@ def r714(rep: Report, ctx: Ctx) -> None:
 
 def r715(rep: Report, ctx: Ctx) -> None:
     from .loopspec import check_table
-    rep.rule("R7.15", "carving the body: the four kinds of boundary edges "
-             "are cut, the dummies are wired and belong to the body, the "
-             "exit fan-out is recorded per end event", 9)
+    rep.rule("R7.15", "carving the body: exit, break and loop-back edges "
+             "are cut, the dummies are wired, the exit fan-out is recorded "
+             "per end event, events that cannot get back are pruned", 7)
     check_table(rep, ctx, "R7.15", [
         "remove_loop_edges", "add_start_and_end_events_to_graph",
         "create_end_event_to_event_lists_mapping",
@@ -1199,7 +1204,7 @@ def r716(rep: Report, ctx: Ctx) -> None:
     re-attached behind the loop node: it appears twice in the nesting."""
     from .effspec import before, effects, expect
     rep.rule("R7.16", "break events connected to the loop's exit are "
-             "replaced by dummy breaks, on edges and sets alike", 11)
+             "replaced by dummy breaks, on edges and sets alike", 10)
     fi = ctx.func("filter_and_replace_breaks_connected_to_end_events")
     effs = effects(ctx, fi)
     B = "each(P:loop.break_events)"
@@ -1251,9 +1256,9 @@ def r716(rep: Report, ctx: Ctx) -> None:
            args=(f"each({B}.in_event_sets).to_list()",),
            must=both + [("cmp", f"{PRED}.event_type", "In",
                          f"each({B}.in_event_sets).to_frozenset()", "1")])
-    expect(rep, "R7.16", fi, effs, "the break event records the dummy break "
-           "as a predecessor", name="update_in_event_sets", recv=B,
-           args=("[DUMMY_BREAK_EVENT_TYPE]",), must=both)
+    # ("the break event records the dummy break as a predecessor" is NOT an
+    # obligation: the singleton set {DUMMY_BREAK} cannot decide any merge
+    # and no nested reader matches it - triaged, DESIGN section 15)
     expect(rep, "R7.16", fi, effs, "edge predecessor -> dummy break",
            name="add_edge", recv="P:graph", args=(PRED, DUMMY), must=both)
     expect(rep, "R7.16", fi, effs, "edge dummy break -> break event",
